@@ -1,14 +1,15 @@
 #!/bin/bash
 # usage: tools_seed_all.sh [ids...] -- run every stored seeded change (seeded/<prop>-<n>) against the quick check of its property
 # prints one line per seed: CAUGHT / MISSED / BROKEN (check exited 2) / NOAPPLY
-cd /verif
+REPO=${VERIF_REPO:-/repo}; DIR=${VERIF_DIR:-/verif}
+cd $DIR
 ids="$@"
 [ -n "$ids" ] || ids=$(ls seeded | grep -E '^C[0-9]+-[0-9]+$' | sort -t- -k1,1 -k2,2n)
 for id in $ids; do
   prop=${id%-*}
-  if ! git -C /repo apply /verif/seeded/$id/patch.diff 2>/dev/null; then echo "$id NOAPPLY"; continue; fi
+  if ! git -C $REPO apply $DIR/seeded/$id/patch.diff 2>/dev/null; then echo "$id NOAPPLY"; continue; fi
   out=$(./bin/vcheck $prop 2>&1); rc=$?
-  git -C /repo checkout -- .
+  git -C $REPO checkout -- .
   first=$(echo "$out" | grep -m1 '^violation:' | cut -c1-150)
   case $rc in
     1) echo "$id CAUGHT  $first";;
